@@ -193,6 +193,11 @@ pub fn run(h: &H) {
             7 => {
                 h.guard(idx, "non-PROJ text, refusals", || other(h, idx, &mut rng));
             }
+            6 => {
+                let text = soup(&mut rng);
+                h.distinct(hash_str(&text));
+                h.guard(idx, &format!("parse_proj({text:?})"), || hostile(h, idx, &text));
+            }
             _ => {
                 h.guard(idx, "PROJ text against its reference translation", || translate(h, idx, &mut rng));
             }
@@ -301,6 +306,67 @@ fn translate(h: &H, idx: u64, rng: &mut Rng) {
     let (sa, sb) = (a.steps(oa).cloned().unwrap_or_default(), b.steps(ob).cloned().unwrap_or_default());
     if norm(&sa) != norm(&sb) {
         v(h, idx, "step-lists-differ", detail().set("proj_steps", format!("{sa:?}")).set("reference_steps", format!("{sb:?}")));
+    }
+}
+
+const SOUP: [&str; 64] = [
+    "proj=utm", "+proj=utm", "proj=merc", "+proj=tmerc", "proj=pipeline", "+proj=pipeline", "step", "+step", "inv", "+inv",
+    "proj=inv", "proj=", "proj", "+proj", "proj=step", "proj=pipeline", "zone=32", "+zone=32", "a=6378388", "rf=297",
+    "+a=6378388", "+rf=297", "a=", "rf=", "+a=1", "+rf=0", "ellps=GRS80", "+ellps=intl", "k=0.9996", "k_0=1", "+k=", "omit_fwd",
+    "+omit_inv", "init=epsg:4326", "+init=epsg:1", "# proj=utm", "#", "|", "x_0=1", "lat_0=1:2:3N", "é=1", "+", "++", "=", "+=1",
+    "towgs84=1,2,3", "proj=cart", "proj=unitconvert", "xy_in=deg", "xy_out=km", "proj=axisswap", "order=2,1", "proj=helmert",
+    "x=1", "convention=position_vector", "proj=noop", "proj=addone", "proj=pop", "v_1", "+v_2", "proj=push", "units=m", "no_defs", "+no_defs",
+];
+
+/// PROJ flavoured word soup: every construct of the translator in arbitrary order and number
+fn soup(rng: &mut Rng) -> String {
+    let n = rng.below(9);
+    let mut s = String::new();
+    for i in 0..n {
+        if i > 0 || rng.chance(0.2) {
+            s += *rng.pick(&[" ", " ", " ", "  ", "\t", "\n", " +", "\r\n"]);
+        }
+        s += *rng.pick(&SOUP);
+    }
+    s
+}
+
+/// The translator and the factory on hostile PROJ text: an answer, never a panic; and what
+/// `Plain::op` makes of the text is what it makes of the translation
+fn hostile(h: &H, idx: u64, text: &str) {
+    h.eval(1);
+    let translated = parse_proj(text);
+    let mut ctx = Plain::new();
+    let direct = ctx.op(text);
+    match (&translated, &direct) {
+        (Err(_), Ok(_)) => {
+            v(h, idx, "hostile/refused-by-the-translator-but-instantiated", J::obj().set("text", text).set("translator", format!("{translated:?}")));
+        }
+        (Ok(t), _) => {
+            h.class(if direct.is_ok() { "hostile/translated-and-instantiated" } else { "hostile/translated-and-refused" });
+            if t.contains("proj") || t.contains('+') {
+                // (soup with several proj= per step: the translation would be translated again)
+                return;
+            }
+            let via = ctx.op(t);
+            if via.is_ok() != direct.is_ok() {
+                v(h, idx, "hostile/text-and-translation-disagree", J::obj().set("text", text).set("translation", t).set("direct", format!("{:?}", direct.as_ref().err())).set("via_translation", format!("{:?}", via.as_ref().err())));
+                return;
+            }
+            if let (Ok(a), Ok(b)) = (direct, via) {
+                for d in [D::F, D::I] {
+                    let p = [0.2, 0.9, 5.0, 2000.0];
+                    let (ra, ca) = apply1(&ctx, a, d, p);
+                    let (rb, cb) = apply1(&ctx, b, d, p);
+                    h.eval(2);
+                    if !same_bits(&ra, &rb) || ca != cb {
+                        v(h, idx, "hostile/text-and-translation-behave-differently", J::obj().set("text", text).set("translation", t).set("direction", d.name()));
+                        return;
+                    }
+                }
+            }
+        }
+        _ => h.class("hostile/refused"),
     }
 }
 
